@@ -196,15 +196,15 @@ def run(ck, ix, tier):
              f"`{norm(r[0]) if r else '?'}` is not the ChainMap lookup of (src, dst) applied to the value")
     fi = ix.func(CO, "Context.transform")
     ck.analysed(fi)
-    calls = [c for c in walk_local(fi.node) if isinstance(c, ast.Call) and isinstance(c.func, ast.Name) and c.func.id == "func"]
+    # the rule function is whatever is called with the value: a call whose callee resolves to a read of self.funcs
+    calls = [(c, _sh11.resolve(c, fi.node)) for c in walk_local(fi.node) if isinstance(c, ast.Call)]
+    calls = [(c, rc) for c, rc in calls if isinstance(rc.func, ast.Subscript) and norm(rc.func.value) == "self.funcs"]
     ck.floor("G-PROV", len(calls), 1, "rule function call in Context.transform")
-    for c in calls:
-        ok = [norm(a) for a in c.args] == ["registry", "value"] and any(k.arg is None and norm(k.value) == "self.defaults" for k in c.keywords)
+    for c, rc in calls:
+        ok = [norm(a) for a in rc.args] == ["registry", "value"] and any(k.arg is None and norm(k.value) == "self.defaults" for k in rc.keywords)
         ck.check(ok, "G-PROV", "Context.transform|rule-called-with-context-parameters", fi.loc(c), "func(registry, value, **self.defaults)", f"`{norm(c)}` does not pass the context's parameters")
-    defs = defs_of(fi)
-    fsrc = [v for v, k, s in defs.defs.get("func", []) if v is not None]
-    ck.check(any(norm(defs.inline(v)) == "self.funcs[self.__keytransform__(src, dst)]" for v in fsrc), "G-PROV", "Context.transform|rule-selected-by-src-dst", fi.loc(),
-             "rule selected by (src, dst)", "the rule is not selected by the (src, dst) key")
+        ck.check(norm(rc.func.slice) in ("self.__keytransform__(src, dst)",), "G-PROV", "Context.transform|rule-selected-by-src-dst", fi.loc(c),
+                 "rule selected by (src, dst)", "the rule is not selected by the (src, dst) key")
     fi = ix.func(CO, "Context.__keytransform__")
     r = [x for x in walk_local(fi.node) if isinstance(x, ast.Return)]
     ck.check(len(r) == 1 and norm(r[0].value) == "(to_units_container(src), to_units_container(dst))", "G-PROV", "Context.__keytransform__|src-dst-order", fi.loc(),
@@ -258,8 +258,10 @@ def run(ck, ix, tier):
         ck.check(any(k.arg is None and norm(k.value) == "kwargs" for k in c.keywords), "G-PROV", "enable_contexts|contexts-parameterised-with-merged-kwargs", fi.loc(c),
                  "contexts parameterised with the merged kwargs", f"`{norm(c)}` does not pass the merged kwargs")
     fi = ix.func(CO, "Context.from_context")
-    for a in [a for a in walk_local(fi.node) if isinstance(a, ast.Assign) and isinstance(a.value, ast.Call) and call_name(a.value) == "dict"]:
-        c = a.value
+    nd11 = [c_ for c_ in walk_local(fi.node) if isinstance(c_, ast.Call) and call_name(c_) == "dict" and "defaults" in norm(c_)]
+    ck.floor("G-PROV", len(nd11), 1, "merge of declared defaults and passed values in Context.from_context")
+    for a in nd11:
+        c = a
         ok = len(c.args) == 1 and norm(c.args[0]) == "context.defaults" and any(k.arg is None and norm(k.value) == "defaults" for k in c.keywords)
         ck.check(ok, "G-PROV", "Context.from_context|passed-defaults-override-declared", fi.loc(a), "passed values override declared defaults", f"`{norm(c)}` reverses the override order")
     # name / alias resolution of contexts
